@@ -67,6 +67,13 @@ def build(ctx):
         if b in wal:
             kw['wal_path'] = os.path.join(tempfile.gettempdir(), 'vfw_wal', f'{b}.jsonl')
         ctx.bus(b, cls=env_EventBus() if b in plain else None, **kw)
+    # other live buses that were created with an already taken name (the library warns and auto-renames them)
+    ctx.decoys = []
+    for b, n_ in (cfg.get('decoys') or {}).items():
+        for j in range(n_):
+            d = env_EventBus()(name=b)
+            d._vfw_name = f'{b}~{j}'
+            ctx.decoys.append(d)
     ctx.exc_objects = {}
     ctx.bus_reads = []
     ctx.returned = {}
@@ -107,6 +114,23 @@ def _register(ctx, bus, pattern, name, script, opts):
     b = ctx.buses[bus]
     pat = CLASSES[pattern] if (pattern in CLASSES and not opts.get('by_name')) else pattern
     sync = bool(opts.get('sync'))
+    if opts.get('bus_method'):
+        # the handler is a bound method of the (EventBus subclass) instance itself
+        import types
+
+        def plain(self_, ev_):
+            return None
+        fn = ctx.on(b, pat, name, lambda inv, ev: _run_sync(ctx, inv, ev, script), sync=True, register=False)
+
+        def method(self_, ev_):
+            return fn(ev_)
+        method.__name__ = name
+        method.__qualname__ = name
+        bound = types.MethodType(method, b)
+        b.on(pat, bound)
+        key = pat if isinstance(pat, str) else pat.__name__
+        ctx.registered.append((b._vfw_name, key, name, -1))
+        return
     if sync:
         def body(inv, ev):
             return _run_sync(ctx, inv, ev, script)
